@@ -320,6 +320,7 @@ package cl
 // language defines (nil after dolist, the count after dotimes).
 //@ func cl.(*Dolist).Call
 //@   property C01 C07
+//@   at-eval only-forms-are-evaluated: ($kind == 1) ==> (is($obj, slip.List) || implements($obj, slip.Funky))
 //@   loop i<len(args)#2: exit go-resumes-at-its-tag: i < len(args) ==> args[i] == tr.Tag
 //@   option trace
 //@   at-eval result-form-sees-nil: ($kind == 2 && $obj == rform && $n >= 1) ==> (has(ns.Vars, sym) && ns.Vars[sym] == nil)
@@ -327,6 +328,7 @@ package cl
 
 //@ func cl.(*Dotimes).Call
 //@   property C01 C07
+//@   at-eval only-forms-are-evaluated: ($kind == 1) ==> (is($obj, slip.List) || implements($obj, slip.Funky))
 //@   option trace
 //@   at-eval body-scope: ($kind == 1) ==> ($scope == ns && $scope != s)
 //@   loop i<len(args)#2: exit go-resumes-at-its-tag: i < len(args) ==> args[i] == tr.Tag
@@ -341,6 +343,7 @@ package cl
 
 //@ func cl.(*Do).Call
 //@   property C01 C07
+//@   at-eval only-forms-are-evaluated: ($kind == 1) ==> (is($obj, slip.List) || implements($obj, slip.Funky))
 //@   on-call setupDo distinct-scopes: $arg0 == s && $arg1 != s
 //@   loop i<len(args)#2: exit go-resumes-at-its-tag: i < len(args) ==> args[i] == tr.Tag
 //@   option trace
@@ -762,17 +765,40 @@ package cl
 
 // C07: go transfers control to the matching tag of the enclosing body: when the
 // search for the target of a go marker stops inside the body, it stands on that tag
-// (the form after it is the next one evaluated).
+// (the form after it is the next one evaluated). A tag only marks a place: what is
+// evaluated in the body is a form (a list, or its compiled version), never a tag that
+// control falls through.
 //@ func cl.(*Tagbody).Call
 //@   property C07
+//@   option forward-exits
+//@   at-eval only-forms-are-evaluated: ($kind == 1) ==> (is($obj, slip.List) || implements($obj, slip.Funky))
 //@   loop i<len(args)#2: exit go-resumes-at-its-tag: i < len(args) ==> args[i] == gt.Tag
 //@ func cl.(*Dox).Call
 //@   property C01 C07
+//@   option forward-exits
+//@   at-eval only-forms-are-evaluated: ($kind == 1) ==> (is($obj, slip.List) || implements($obj, slip.Funky))
 //@   on-call setupDo sequential-binding-in-the-new-scope: $arg0 == $arg1 && $arg0 != s
 //@   loop i<len(args)#2: exit go-resumes-at-its-tag: i < len(args) ==> args[i] == tr.Tag
 //@ func cl.(*Prog).Call
 //@   property C07
+//@   option forward-exits
+//@   at-eval only-forms-are-evaluated: ($kind == 1) ==> (is($obj, slip.List) || implements($obj, slip.Funky))
 //@   loop i<len(args)#2: exit go-resumes-at-its-tag: i < len(args) ==> args[i] == tr.Tag
 //@ func cl.(*Progx).Call
 //@   property C07
+//@   option forward-exits
+//@   at-eval only-forms-are-evaluated: ($kind == 1) ==> (is($obj, slip.List) || implements($obj, slip.Funky))
 //@   loop i<len(args)#2: exit go-resumes-at-its-tag: i < len(args) ==> args[i] == tr.Tag
+
+// C08: defun / defmacro hand every call site compiled from now on the lambda that is registered for
+// the name - the one earlier call sites hold and a later redefinition updates in place.
+//@ func cl.(*Defun).Call
+//@   property C08
+//@   count-calls Lambda DefLambda
+//@   on-call Lambda asks-for-the-lambda-registered-under-the-name-it-defined: $arg0 == low && $ncall_DefLambda == 2
+//@   ensures registered-lambda-consulted-on-every-definition: $ncall_Lambda == 1
+//@ func cl.(*Defmacro).Call
+//@   property C08
+//@   count-calls Lambda DefLambda
+//@   on-call Lambda asks-for-the-lambda-registered-under-the-name-it-defined: $arg0 == low && $ncall_DefLambda == 2
+//@   ensures registered-lambda-consulted-on-every-definition: $ncall_Lambda == 1
